@@ -162,6 +162,23 @@ CLAIMED['C13'] = dict(
               'metamorphic runs on the real code + differential correspondence',
     ref='DESIGN.md 7 (C13)')
 
+CLAIMED['C18'] = dict(
+    text='Lean 4 theorems on the model of Loader.__expand_aliases over the composer\'s node graph '
+         '(anchors, aliases): expansion is a total structural recursion (hence no stack exhaustion on '
+         'cycles), an alias to a node that contains itself is rejected with a RecognitionError citing '
+         'that node, expanding an alias-free document is the identity, and loading a document equals '
+         'loading the document in which every alias is written out as a copy of the anchored node '
+         '(same value, same constructor calls, same failure). On the real code each generated document '
+         'is loaded with an alias and with the copy written out (nodes of seasoned classes, positions '
+         'of different declared types, keys) and the outcomes must coincide; cycles must raise. '
+         + LOADER_TIE + 'The driver receives the node graph with its sharing.',
+    note=NOTE_COMMON + 'that the composer represents an alias as a second reference to the anchored '
+         'node object, and rejects duplicate anchors / undefined aliases itself.',
+    technique='Lean 4 proof (structural recursion, expansion of an alias-free document is the '
+              'identity, load factors through expansion) + aliased-vs-inlined metamorphic runs + '
+              'differential correspondence on node graphs',
+    ref='DESIGN.md 7 (C18)')
+
 NOT_YET = 'check not built yet in this round (planned proof: DESIGN.md section 7)'
 
 
